@@ -173,3 +173,43 @@ PROPS['C15']['e1'] = PROPS['C15']['e1'] + [SEDC + 'read']
 PROPS['C15']['assumptions'] = COMMON + ['A-UNIT: unit model of sedvc/units.py', D_FITS]
 PROPS['C15']['explanation'] = PROPS['C15']['explanation'].replace('E2: the same', 'SED.read: every cell is converted with the frequency of that very cell whichever way the axis is '
                                                                   'flipped (4 variants). E2: the same')
+
+# ---- second wave of E1 coverage ---------------------------------------------------------------
+D_TABLE = 'dep: astropy Table: boolean row selection keeps the selected rows in order, integer selection gathers whole rows, rows that do not exist raise (sedvc/extmodels.py table model); np.isin = membership'
+PROPS['C02'] = dict(
+    level='other',
+    e1=[MOD + 'fit', MOD + 'log_fluxes_mJy', FR + 'optimal_scaling', FR + 'chi_squared', SRC + 'get_log_fluxes', CFX + 'interpolate'],
+    e2=('rtc.pipe_props', 'run_c02'),
+    assumptions=COMMON + [T_LOOP, D_ARGMIN, 'A-UNIT: unit model of sedvc/units.py', 'the distance grid (ceil, logspace) and the theta*d / (1 kpc/d)^2 scaling inside Models._read_version_1/2 '
+                          '(file I/O orchestration) are decided by the bounded run only; a float ceil at an exact multiple may add one grid point (outside A-REAL)'],
+    explanation='E1: Models.fit on a (model, distance, filter) grid: for every model and every grid distance the A_V is the 1-D least-squares optimum clipped to the range, the chi^2 is the fit '
+                'term plus limit penalties at that A_V, the reported chi^2 is <= the chi^2 at every grid distance, the reported scale is logd of the chosen distance and the predicted fluxes are '
+                'gathered at that distance; ConvolvedFluxes.interpolate (the aperture interpolation used for the scaling). E2: grid formula and scaling through real packages, both formats, memmap.')
+PROPS['C07'] = dict(
+    level='other',
+    e1=[CFX + 'sort_to_match', CUBEN + 'SEDCube.get_sed', CUBEN + 'BaseCube.read'],
+    e2=('rtc.pipe_props', 'run_c07'),
+    assumptions=COMMON + [D_ARGSORT, D_FITS, 'np.char.strip = a function of the name', 'the convolve loops of _convolve_model_dir_1/2 (which SED goes to which row, per-aperture sums, rebinning per '
+                          'wavelength grid), the FITS writers and the memmap path are decided by the bounded run only; that a permutation of unique names never raises "Sorting failed" is bounded'],
+    explanation='E1: sort_to_match: on normal return row r is labelled requested[r] and carries the name, fluxes and errors of ONE input row (the same for all three), anything else is an exception; '
+                'SEDCube.read / get_sed (the cube side of format equality). E2: packages x formats x memmap x mixed wavelength grids x row permutations against an independent convolution oracle.')
+PROPS['C09'] = dict(
+    level='other',
+    e1=[FI + 'filter_table'],
+    e2=('rtc.pipe_props', 'run_c09'),
+    assumptions=COMMON + [T_LOOP, D_ARGSORT, D_TABLE, 'the text written by write_parameters / write_parameter_ranges / extract_parameters and the plots are decided by the bounded run only; '
+                          'that a parameter table holding every fitted model exactly once never raises is bounded (exhaustive row permutations)'],
+    explanation='E1: FitInfo.filter_table for any row order of the input table and any number of rows/fits: on normal return row i is an ENTIRE input row (every column from the same row) whose '
+                'MODEL_NAME is the name of fit i; additional parameters are attached by stripped model name; nothing else is returned silently (exceptions only). E2: the three writers parsed back.')
+PROPS['C16']['e1'] = [CFX + 'sort_to_match']
+PROPS['C16']['assumptions'] = COMMON + [D_ARGSORT, 'the window indices (searchsorted on the reversed axis) and the chunk loops of convolve_model_dir_monochromatic and the nearest-wavelength slice of '
+                                        'Models._read_version_2 are decided by the EXHAUSTIVE bounded enumeration (every chunk size x every window for n_wav <= 5/8), not by E1']
+PROPS['C16']['explanation'] = ('E2 (exhaustive for small n_wav) decides the property on the real function through real files. E1 proves only the row-integrity contract of sort_to_match that every '
+                               'monochromatic file goes through. Level "other": bounded-exhaustive, not proved.')
+PROPS['C08']['assumptions'] = COMMON + ['no function is proved specifically for C08: it is the composition of the contracts of C01/C02/C04/C07/C09 and is decided end-to-end by the bounded run']
+PROPS['C08']['explanation'] = ('E2: planted (model, A_V, scale) recovered through convolve_model_dir -> fit -> write_parameters, both formats, 1/3 apertures, permuted tables, mixed wavelength grids. '
+                               'The kernels it composes are proved under C01 (optimum), C02 (grid minimum), C04 (ranking), C09 (filter_table); the composition itself is bounded.')
+PROPS['C11']['level'] = 'other'
+PROPS['C11']['explanation'] = ('E1: frame obligations of every function on the fit path -- nothing reachable from the fitter state or the source is modified -- from which independence of history '
+                               'follows for ALL histories (for the state the contracts describe). E2: paired runs for filter/model permutations, brightness scaling, histories incl. the resolved-model mask. '
+                               'Level "other": the history half is proved, the permutation/scaling half is bounded.')
